@@ -69,6 +69,20 @@ CHECKS = {
        'in NinjaLang.tla and implemented by harness/ninja_ref.py (the two are compared on every recorded cmd binding); '
        'recording stubs; TLC',
   design='5/C02'),
+ 'C11': dict(
+  technique='TLA+ reference semantics of the documented glob language + design model of glob.py (Glob.tla); TLC '
+            'checks design = reference exhaustively on small trees (Glob_MC.tla); TLC-generated (tree, filter) cases '
+            '(Glob_Gen.tla) run through the real find_paths inside a real configure; TLC evaluates the reference on '
+            'every recorded call (Glob_Trace.tla)',
+  text='The documented semantics are written once as a declarative set comprehension in TLA+; TLC is the oracle for '
+       'every real call (first call, cached call, cache=False call, distribution list) over hundreds to thousands of '
+       'generated trees and filters incl. multi-pattern lists, several ** runs, extra/exclude/type combinations and '
+       'names with dots, blanks and glob metacharacters; separately TLC shows that a model of the three-valued '
+       'matcher with directory pruning equals the reference on all small trees.',
+  note='trusted: Glob.tla as my reading of doc/reference/builtins.md (exclude is applied strictly below the literal '
+       'base; extras are required only for siblings of selected entries), TLC; symlinked directories and '
+       'filter_by_platform are not generated',
+  design='5/C11'),
 }
 
 NOT_YET = {}
